@@ -65,11 +65,12 @@ func refAnswer(eco, renc, venc string) string {
 	return ""
 }
 
-// NpmValid: the shapes node-semver's grammar accepts among the ASTs: a
-// prerelease or build only on three components.
+// NpmValid: the domain of npm range ASTs: a prerelease or build tag only on a
+// full three-number operand (node's grammar also admits one after a wildcard
+// patch, `1.2.x-a`, where it means nothing).
 func NpmValid(r Range) bool {
 	okp := func(p Partial) bool {
-		return (len(p.Pre) == 0 && p.Build == "") || len(p.Nums) == 3
+		return (len(p.Pre) == 0 && p.Build == "") || !isPartial(p)
 	}
 	for _, a := range r.Alts {
 		if a.Hyphen {
@@ -237,7 +238,7 @@ func classify(oracle string, ops, res []string) string {
 	switch oracle {
 	case "agree":
 		want = map[string]bool{"F-C03-lt0pre": true, "F-C03-star-collapse": true, "F-C03-mvn-neg": true,
-			"F-C03-lt-midwild": true, "F-C03-lt-partial-pre": true, "F-C03-cargo-pre-partial": true}
+			"F-C03-lt-midwild": true, "F-C03-pre000": true, "F-C03-gt-succ-pre": true, "F-C03-lt-partial-pre": true, "F-C03-cargo-pre-partial": true}
 	case "not-rejected":
 		want = map[string]bool{"F-C03-hyphen-wild": true, "F-C03-hyphen-inverted": true, "F-C03-ne-pre0": true, "F-C03-mvn-neg": true}
 	}
